@@ -51,4 +51,10 @@ def run(env: Env) -> Outcome:
             and o.get("idle_release_ticks") == 1):
         out.violations.append(Violation("C26/dbos_standin_cycle", f"with the lifecycle row present the stand-in release/resume cycle did not complete: {o['timeline']}",
                                         {"kind": "dbos_standin", "create_row": True}))
+    o0 = LP.run_dbos_standin(out, create_row=False)
+    begins = [c for c in o0["lock_calls"] if c[0] == "begin_release"]
+    if o0.get("idle_release_ticks", 0) > 0 and not any(c[1] == "True" for c in begins):
+        out.violations.append(Violation("C26/dbos_release_without_cas",
+                                        f"TickIdleRelease was sent although no begin_release won the CAS: lock calls {o0['lock_calls']}",
+                                        {"kind": "dbos_standin", "create_row": False}))
     return out
